@@ -733,10 +733,11 @@ static void conf_parse_entry(struct conf_parse *parse, struct conf_node_object *
         parse->curr--;
         string = conf_parse_string(parse);
         ch = conf_parse_whitespace(parse, 1);
-        if (ch == ';' || ch == '\n' || ch == '}') {
+        if (ch == ';' || ch == '\n' || ch == '}' || ch == '\0') {
             struct conf_node_string *node;
 
-            parse->curr--;
+            if (ch != '\0')
+                parse->curr--;
             node = conf_parse_get_child(parent, name, CONF_STRING, sizeof(*node));
             xfree(node->value);
             node->value = string;
@@ -754,7 +755,7 @@ static void conf_parse_entry(struct conf_parse *parse, struct conf_node_object *
                 char *value;
                 ch = conf_parse_whitespace(parse, 1);
                 if (ch == '\0')
-                    longjmp(parse->env, PARSE_PREMATURE_EOF);
+                    break;
                 parse->curr--;
                 if (ch == '\n')
                     break;
@@ -762,8 +763,8 @@ static void conf_parse_entry(struct conf_parse *parse, struct conf_node_object *
                 string_vector_append(&new_value, value);
                 ch = conf_parse_whitespace(parse, 1);
                 if (ch == '\0')
-                    longjmp(parse->env, PARSE_PREMATURE_EOF);
-                if (ch == '\n' || ch == ';') {
+                    break;
+                if (ch == '\n' || ch == ';' || ch == '}') {
                     /* The terminator is consumed by the check below. */
                     parse->curr--;
                     break;
@@ -786,7 +787,17 @@ static void conf_parse_entry(struct conf_parse *parse, struct conf_node_object *
             node->service = service;
         }
     }
+    /* An entry ends at ';' or newline; the last entry of an object or
+     * of the file may also be ended by the closing '}' (left for the
+     * enclosing object's loop) or by the end of input.
+     */
     ch = conf_parse_whitespace(parse, 1);
+    if (ch == '\0')
+        return;
+    if ((ch == '}') && (parent != &parse->root)) {
+        parse->curr--;
+        return;
+    }
     if ((ch != ';') && (ch != '\n'))
         longjmp(parse->env, PARSE_EXPECTED_SEMICOLON);
 }
